@@ -446,7 +446,7 @@ wrapint wrapint::zext(bitwidth_t bits_to_add) const {
 wrapint wrapint::keep_lower(bitwidth_t bits_to_keep) const {
   if (bits_to_keep >= _width)
     return *this;
-  return wrapint(_n & (((uint64_t)1 << (uint64_t)(bits_to_keep + 1)) - 1),
+  return wrapint(_n & (((uint64_t)1 << (uint64_t)bits_to_keep) - 1),
                  bits_to_keep);
 }
 
